@@ -9,7 +9,7 @@ Two parts (DESIGN.md "### C08"):
     run in child processes, so that a hang, an os.Exit or a fatal error is attributed to one input.
 """
 import concurrent.futures as cf
-import json, os, re, resource, subprocess, time
+import json, os, re, resource, subprocess, sys, time
 
 from lib import vlib
 
@@ -123,7 +123,7 @@ def run_batch(h, lines, workdir, tag, scale=1.0, maxstack=0, hard_timeout=1800):
             if f[0] == "B":
                 pending = (f[1], f[2])
             elif f[0] == "R":
-                recs.append((f[1], f[2], f[3], int(f[4]), int(f[5]), f[6] if len(f) > 6 else "-"))
+                recs.append((f[1], sys.intern(f[2]), sys.intern(f[3]), int(f[4]), int(f[5]), sys.intern(f[6]) if len(f) > 6 else "-"))
                 lastdone = (f[1], f[2])
                 pending = None
             elif f[0] == "END":
@@ -150,6 +150,11 @@ def run_batch(h, lines, workdir, tag, scale=1.0, maxstack=0, hard_timeout=1800):
             start, skip = li, ei + 1
         else:
             start, skip = li + 1, 0
+    for f in [bpath] + [os.path.join(workdir, "%s.%d.out" % (tag, k)) for k in range(1, rounds + 1)]:
+        try:
+            os.remove(f)
+        except OSError:
+            pass
     return recs
 
 
@@ -639,7 +644,19 @@ def file_spec(path, n=-1):
     return "@%s:%d" % (path.encode().hex(), n)
 
 
+def spec_hex(spec):
+    """what goes into a batch line: generator references ("!lang/family/size") are expanded here, late, so that the
+    big size-family inputs are never all in memory at once"""
+    if spec.startswith("!"):
+        lang, fam, D = spec[1:].split("/")
+        return hexs(deep_family(lang, fam, int(D)))
+    return spec
+
+
 def content_of(spec):
+    if spec.startswith("!"):
+        lang, fam, D = spec[1:].split("/")
+        return deep_family(lang, fam, int(D))
     if spec.startswith("@"):
         ph, n = spec[1:].rsplit(":", 1)
         d = open(bytes.fromhex(ph).decode(), "rb").read()
@@ -654,6 +671,22 @@ class Gen:
         self.skip = set(skip_eps)
         self.inputs = {}          # id -> dict(stream, lang, name, spec, size, eps, desc)
         self.order = []
+        self.h = None             # harness binary: when set, inputs are explored in chunks while they are generated
+        self.recs = []
+        self.pending, self.pending_bytes, self.chunks = [], 0, 0
+
+    def flush(self):
+        """explore the pending inputs now and drop the content of those that behaved (memory)"""
+        if not self.pending or self.h is None:
+            return
+        self.chunks += 1
+        recs = explore(self.ctx, self.h, self, self.pending, "x%d_" % self.chunks)
+        self.recs += recs
+        bad = {r[0] for r in recs if r[2] in BAD}
+        for i in self.pending:
+            if i not in bad and len(self.inputs[i]["spec"]) > 256:
+                self.inputs[i]["spec"] = None
+        self.pending, self.pending_bytes = [], 0
 
     def add(self, stream, lang, name, spec, size, eps, desc, force=False):
         if not force:
@@ -663,6 +696,11 @@ class Gen:
         i = "%s%d" % (stream, len(self.order))
         self.inputs[i] = {"stream": stream, "lang": lang, "name": name, "spec": spec, "size": size, "eps": eps, "desc": desc}
         self.order.append(i)
+        if self.h is not None:
+            self.pending.append(i)
+            self.pending_bytes += max(len(spec), size * 2 if spec.startswith("!") else 0)
+            if self.pending_bytes > (200 << 20) or len(self.pending) >= 50000:
+                self.flush()
 
     def eps_for(self, lang, load_p, cross_p, name=None):
         rng = self.rng
@@ -824,18 +862,18 @@ class Gen:
         for lang, fs in fams.items():
             for fam in fs:
                 for D in sizes:
-                    d = deep_family(lang, fam, D)
-                    self.add("extreme", lang, OWN_NAME[lang], hexs(d), len(d), parse_eps[lang], "family %s/%s size %d" % (lang, fam, D))
+                    n = len(deep_family(lang, fam, D))
+                    self.add("extreme", lang, OWN_NAME[lang], "!%s/%s/%d" % (lang, fam, D), n, parse_eps[lang], "family %s/%s size %d" % (lang, fam, D))
 
     def stream_deep(self, sizes, load_max):
         for lang in ("wa", "wz", "wat", "asm"):
             for fam in deep_family(lang, None, 1):
                 for D in sizes:
-                    d = deep_family(lang, fam, D)
+                    n = len(deep_family(lang, fam, D))
                     eps = [e for e in OWN_EPS[lang] if e != "format" or D <= 100000]
                     if lang in LOAD_EP and D <= load_max:
                         eps.append(LOAD_EP[lang])
-                    self.add("deep", lang, OWN_NAME[lang], hexs(d), len(d), eps, "family %s/%s size %d" % (lang, fam, D))
+                    self.add("deep", lang, OWN_NAME[lang], "!%s/%s/%d" % (lang, fam, D), n, eps, "family %s/%s size %d" % (lang, fam, D))
 
 
 # ------------------------------------------------------------------------------------------------ oracle
@@ -900,14 +938,14 @@ def make_batches(gen, ids, max_inputs=120, max_bytes=6 << 20):
 
 
 def batch_lines(gen, items):
-    return ["%s %s %s %s" % (i, ",".join(eps), hexs(gen.inputs[i]["name"]), gen.inputs[i]["spec"]) for i, eps in items]
+    return ["%s %s %s %s" % (i, ",".join(eps), hexs(gen.inputs[i]["name"]), spec_hex(gen.inputs[i]["spec"])) for i, eps in items]
 
 
 def explore(ctx, h, gen, ids, tag, workers=16, scale=1.0):
     batches = make_batches(gen, ids)
     recs = []
     with cf.ThreadPoolExecutor(workers) as ex:
-        futs = [ex.submit(run_batch, h, batch_lines(gen, b), ctx.tmp, "%s%d" % (tag, k), scale) for k, b in enumerate(batches)]
+        futs = [ex.submit(lambda b=b, k=k: run_batch(h, batch_lines(gen, b), ctx.tmp, "%s%d" % (tag, k), scale)) for k, b in enumerate(batches)]
         for fu in futs:
             recs += fu.result()
     return recs
@@ -1200,15 +1238,22 @@ def run(ctx):
     if excluded:
         ctx.notes.append("entry points excluded from the mass streams because they hang/die on trivial inputs: %s" % excluded)
 
+    # from here on inputs are explored in chunks while they are generated (gen.flush)
+    t1 = time.time()
+    gen.h = h
     # ---- 1. corpus (minimised past failures), replayed first
     corpus = load_corpus()
     for c in corpus:
         if c.get("tier") == "thorough" and quick:
             continue
-        data = corpus_content(c)
+        if "gen" in c:
+            g = c["gen"]
+            spec, n = "!%s/%s/%d" % (g["lang"], g["family"], g["size"]), len(deep_family(g["lang"], g["family"], g["size"]))
+        else:
+            spec, n = c["content_hex"], len(content_of(c["content_hex"]))
         for _ in range(int(c.get("repeat", 1))):      # intermittent failures (map iteration order) are replayed several times
             gen.add("corpus", c.get("lang", "wa"), bytes.fromhex(c.get("name_hex", "")) if c.get("name_hex", "-") != "-" else b"",
-                    hexs(data), len(data), c["eps"], "corpus/%s (%s)" % (c["file"], c.get("key", "")), force=True)
+                    spec, n, c["eps"], "corpus/%s (%s)" % (c["file"], c.get("key", "")), force=True)
     # the Lean witnesses (dispatch_witness_pinned, dispatch_witness_pinned_empty) replayed on the real code
     gen.add("witness", "wa", b"x.txt", hexs(b"1"), 1, ["syntax", "format"], "witness FormatCode(\"x.txt\", \"1\")")
     gen.add("witness", "wa", b"x", "-", 0, ["syntax", "format"], "witness FormatCode(\"x\", \"\")")
@@ -1231,10 +1276,10 @@ def run(ctx):
         gen.stream_trunc(None, 0.004)
         gen.stream_deep([500, 8000, 100000], load_max=8000)
         gen.stream_extreme([100000, 5000000], quick=False)
-    ids = [i for i in gen.order if i not in set(probe_ids)]
-    t1 = time.time()
-    recs += explore(ctx, h, gen, ids, "x")
-    timing["explore_s"] = round(time.time() - t1, 1)
+    gen.flush()
+    recs += gen.recs
+    timing["generate+explore_s"] = round(time.time() - t1, 1)
+    timing["chunks"] = gen.chunks
     timing["explore_cpu_s"] = round(sum(r[3] for r in recs) / 1e6, 1)
 
     # ---- 3. dispatch correspondence + witness replay
@@ -1372,8 +1417,8 @@ def run(ctx):
             i1, i2 = x["ids"]
             a, b = gen.inputs[i1], gen.inputs[i2]
             # one child process: the small input twice (the first call pays one-off initialisation), then the large one
-            rr = run_batch(h, ["w %s %s %s" % (x["ep"], hexs(a["name"]), a["spec"]), "s %s %s %s" % (x["ep"], hexs(a["name"]), a["spec"]),
-                               "l %s %s %s" % (x["ep"], hexs(b["name"]), b["spec"])], ctx.tmp, "sup_" + re.sub(r"\W+", "_", key))
+            rr = run_batch(h, ["w %s %s %s" % (x["ep"], hexs(a["name"]), spec_hex(a["spec"])), "s %s %s %s" % (x["ep"], hexs(a["name"]), spec_hex(a["spec"])),
+                               "l %s %s %s" % (x["ep"], hexs(b["name"]), spec_hex(b["spec"]))], ctx.tmp, "sup_" + re.sub(r"\W+", "_", key))
             got = {r[0]: r for r in rr}
             tt = [got[k][3] if k in got and got[k][2] in ("ok", "err") else None for k in ("s", "l")]
             if None in tt or tt[1] < MIN_T2 or tt[1] < (S2 / S1) ** MIN_EXP * max(tt[0], 1000):
